@@ -291,7 +291,9 @@ func RunC05(tier string, args []string) int {
 		{Signer: "issuer", Status: xocsp.Revoked, FlipBit: -1, FlipSeed: "issuer-revoked"},
 	}
 	if tier == "thorough" {
-		seeds = append(seeds, c05Case{Signer: "delegated-eku", Status: xocsp.Good, FlipBit: -1, FlipSeed: "delegated-good"})
+		seeds = append(seeds, c05Case{Signer: "delegated-eku", Status: xocsp.Good, FlipBit: -1, FlipSeed: "delegated-good"},
+			c05Case{Signer: "delegated-eku", Status: xocsp.Revoked, FlipBit: -1, FlipSeed: "delegated-revoked"},
+			c05Case{Signer: "issuer", Status: xocsp.Unknown, FlipBit: -1, FlipSeed: "issuer-unknown"})
 	}
 	for _, seed := range seeds {
 		body, _ := k.build(seed)
